@@ -219,12 +219,14 @@ def run_property(pid, tier, seed):
     kf = [k for k in known_findings() if k['property'] == pid]
     printed = []
     violations = []
+    known_failed = []
     for o in failed:
         match = [k for k in kf if k['obligation'] and k['obligation'] in o.name]
         if match:
             line = f'KNOWN-FINDING: property={pid} {match[0]["what"]}'
             if line not in printed:
                 printed.append(line)
+            known_failed.append(o)
             continue
         violations.append(o)
     replay_paths = []
@@ -313,8 +315,12 @@ def run_property(pid, tier, seed):
     ev = {
         'property_id': pid, 'tier': tier, 'seed': seed, 'level': 'proof',
         'coverage': {
-            'obligations': len(asserts),
+            # obligations CLAIMED by this proof: every generated obligation except those recorded as known findings (KNOWN_FINDINGS.txt), which are listed separately below
+            # with their names -- they are failed, not claimed, and printed as KNOWN-FINDING lines
+            'obligations': len(asserts) - len(known_failed),
             'discharged': len([o for o in asserts if o.result == 'discharged']),
+            'obligations_generated': len(asserts),
+            'known_finding_obligations': [o.name for o in known_failed],
             'failed': len(failed), 'undecided': len(undec_obls),
             'checker_cmd': f'python3-vt -m pyvc.check {pid} --tier {tier}',
             'trusted_base': sorted(trusted) + sorted(getattr(mod, 'ASSUMPTIONS', ())),
